@@ -51,6 +51,23 @@ pub fn bits_w<W: VInt>(case: &Value, mode: &str, rep: &mut Report) {
             if got != rev { bad(rep, format!("stack coder after {:?} yields bits {:?}, spec content reversed {:?}", hist, got, rev)); return; }
             // push then pop
             for b in [false, true] { let mut k = mk(); g!("write_bit", k.write_bit(b).unwrap()); let r = g!("read_bit", ReadBitStream::<Stack>::read_bit(&mut k).unwrap()); if r != Some(b) || drain_stack(&k) != rev { bad(rep, format!("write_bit({}) then read_bit gives {:?} / remaining bits differ", b, r)); } }
+            // every continuation of up to 4 writes/reads from this state behaves like the abstract stack the specification
+            // maps the state to (a state reached by popping across a word boundary must not remember anything)
+            {
+                let mut seqs: Vec<Vec<u8>> = vec![vec![]];
+                for _ in 0..4 { let mut next = vec![]; for q in &seqs { if q.len() + 1 <= 4 { for op in 0..3u8 { let mut t = q.clone(); t.push(op); next.push(t); } } } seqs.extend(next.into_iter().filter(|t| true && !t.is_empty())); seqs.sort(); seqs.dedup(); }
+                for q in seqs.iter().filter(|q| !q.is_empty()) {
+                    let mut k = mk(); let mut model = content.clone(); let mut ok = true;
+                    for op in q { match op { 0 | 1 => { k.write_bit(*op == 1).unwrap(); model.push(*op); }
+                        _ => { let r = ReadBitStream::<Stack>::read_bit(&mut k).unwrap(); let e = model.pop(); if r.map(|b| b as u8) != e { bad(rep, format!("after {:?} then ops {:?} (0/1 = write, 2 = read): read_bit gives {:?}, abstract stack gives {:?}", hist, q, r, e)); ok = false; break; } } } }
+                    if !ok { return; }
+                    rep.checks += 1;
+                    let l = k.len(); let fin = k.into_compressed().unwrap();
+                    let back = match StackCoder::<W, Vec<W>>::from_compressed(fin.clone()) { Ok(b) => pop_all(b), Err(_) => { bad(rep, format!("after {:?} then ops {:?}: exported words {:?} refused on re-import", hist, q, fin)); return; } };
+                    let mut want = model.clone(); want.reverse();
+                    if back != want || l != model.len() { bad(rep, format!("after {:?} then ops {:?}: len {} / exported and re-imported content {:?}, abstract stack {:?}", hist, q, l, back, want)); return; }
+                }
+            }
             // export / re-import at this fill level
             let words = g!("into_compressed", mk().into_compressed().unwrap());
             match g!("from_compressed", StackCoder::<W, Vec<W>>::from_compressed(words.clone())) {
